@@ -485,6 +485,7 @@ inline int vf_main(int argc, char **argv, const char *engine) {
 
     uint64_t global = 0;
     size_t ran_cfgs = 0;
+    const bool stderr_markers = getenv("VF_STDERR_MARKERS") != nullptr;
     for (size_t ci = 0; ci < reg.size(); ++ci) {
         auto &cfg = reg[ci];
         if (!a.only_config.empty() && cfg.name != a.only_config)
@@ -509,6 +510,7 @@ inline int vf_main(int argc, char **argv, const char *engine) {
                 c.given = &given;
             fprintf(out, "B %zu %" PRIu64 "\n", ci, k);
             fflush(out);
+            if (stderr_markers) fprintf(stderr, "VF-CASE %zu %" PRIu64 "\n", ci, k); // lets the driver attribute sanitizer reports in the log
             if (a.case_timeout) alarm(a.case_timeout);
             run_one(c);
             if (a.case_timeout) alarm(0);
